@@ -15,9 +15,13 @@ def mir_dir():
 def mir_for(crate):
     """path of the MIR text of `crate` for the *current* /repo working tree.  The cache key is
     the sha256 of the source tree, so a cached dump is only reused for byte-identical source;
-    any edit to /repo regenerates it (about 20 s for anemo)."""
+    any edit to /repo regenerates it (about 20 s for anemo).  `<crate>@dbg` = the same crate compiled with
+    debug assertions (the profile the test suite and Kani use): `debug_assert!`s are part of that MIR."""
     d = mir_dir()
-    out = os.path.join(d, crate + '.mir')
+    dbg = crate.endswith('@dbg')
+    out = os.path.join(d, crate.replace('@', '.') + '.mir')
+    crate_key = crate
+    crate = crate[:-4] if dbg else crate
     if os.path.exists(out) and os.path.getsize(out) > 1000:
         return out
     with locked('mir'):
@@ -29,7 +33,7 @@ def mir_for(crate):
         # make sure rustc really runs (an up-to-date crate prints nothing)
         os.utime(os.path.join(cdir, 'src/lib.rs'))
         cmd = ['cargo', '+nightly', 'rustc', '--offline', '--lib', '--', '-Zunpretty=mir', '-Zmir-include-spans',
-               '-C', 'debug-assertions=off', '-C', 'overflow-checks=on']
+               '-C', 'debug-assertions=' + ('on' if dbg else 'off'), '-C', 'overflow-checks=on']
         import subprocess
         e = dict(os.environ, CARGO_NET_OFFLINE='true', CARGO_TARGET_DIR=MIR_TARGET)
         t0 = time.time()
@@ -39,7 +43,7 @@ def mir_for(crate):
         with open(out + '.tmp', 'w') as f:
             f.write(pr.stdout)
         os.replace(out + '.tmp', out)
-        log(f'[mir] dumped {crate}: {len(pr.stdout.splitlines())} lines in {time.time() - t0:.0f}s -> {out}')
+        log(f'[mir] dumped {crate_key}: {len(pr.stdout.splitlines())} lines in {time.time() - t0:.0f}s -> {out}')
         # prune old dumps (keep the 6 newest trees)
         root = os.path.join(CACHE, 'mir')
         ds = sorted((os.path.getmtime(os.path.join(root, x)), x) for x in os.listdir(root))
@@ -64,7 +68,8 @@ def program(crate):
         except Exception:
             prog = None
     if prog is None:
-        prog = M.load(path, REPO, crate)
+        base = crate[:-4] if crate.endswith('@dbg') else crate
+        prog = M.load(path, REPO, base)
         prog.src_root = REPO
         tren = fnroles.type_renames(REPO) if not os.environ.get('VERIF_NO_FNROLES') else {}
         if tren and any(re.search(r'\b' + re.escape(c) + r'\b', open(path).read()) for c in tren):
@@ -76,11 +81,11 @@ def program(crate):
                 f.write(fnroles.apply_type_renames(text, tren))
             os.replace(tcanon + '.tmp', tcanon)
             path = tcanon
-            prog = M.load(path, REPO, crate)
+            prog = M.load(path, REPO, base)
             prog.type_ren = dict(tren)
             log(f'[mir] {crate}: renamed private structs recognised by their fields: ' + ', '.join(f'{c} (= pinned {p_})' for c, p_ in tren.items()))
         prog.src_root = REPO
-        ren = fnroles.renames(prog, crate) if not os.environ.get('VERIF_NO_FNROLES') else []
+        ren = fnroles.renames(prog, base) if not os.environ.get('VERIF_NO_FNROLES') else []
         if ren:
             # crate-private functions recognised (by signature) as renamed: analyse them under their pinned names
             canon = path + '.canon'
@@ -89,7 +94,7 @@ def program(crate):
             with open(canon + '.tmp', 'w') as f:
                 f.write(fnroles.rewrite(text, ren, prog))
             os.replace(canon + '.tmp', canon)
-            prog = M.load(canon, REPO, crate)
+            prog = M.load(canon, REPO, base)
             prog.type_ren = dict(tren)
             prog.renamed = [(sc, old, new) for sc, old, new, _ in ren]
             log(f'[mir] {crate}: renamed private functions recognised by signature: ' + ', '.join(f'{old} (= pinned {new})' for _, old, new, _ in ren))
